@@ -177,7 +177,7 @@ fn mutate_json(rng: &mut Rng, v: &Value, what: &mut String) -> Value {
                 if !s.is_empty() {
                     let mut b = s.into_bytes();
                     let i = rng.usize(b.len());
-                    b[i] = *rng.pick(b"gzZ!~ \"");
+                    b[i] = *rng.pick(b"lv02!~ \"");
                     *what = format!("non-hex character in field {k}");
                     obj.insert(k, json!(String::from_utf8_lossy(&b).to_string()));
                 }
@@ -288,9 +288,10 @@ fn gen_request(rng: &mut Rng, world: &World, registered: &[usize]) -> Req {
         body = serde_json::to_vec(&valid).unwrap();
         expect = if endpoint == "register" { Expectation::MustSucceed } else { Expectation::Either };
     } else if kind < 70 {
+        let original = valid.clone();
         valid = mutate_json(rng, &valid, &mut what);
         body = serde_json::to_vec(&valid).unwrap();
-        expect = if what == "unchanged" || what == "extra unknown field" { Expectation::Either } else { Expectation::MustFail };
+        expect = if what == "unchanged" || what == "extra unknown field" || valid == original { Expectation::Either } else { Expectation::MustFail };
         // a resized register user id may by luck still be... no: length is checked. Resizing a signature keeps the request
         // syntactically valid (authentication fails) — still a failure.
     } else if kind < 78 {
